@@ -217,13 +217,23 @@ CHECKS['C12'] = {
     'explanation': 'units blk, key',
 }
 
+CHECKS['C17'] = {
+    'level': 'proof',
+    'units': ['unq'], 'kani': [],
+    'technique': 'contract-based deductive verification (Verus) of the verbatim Unquote::next / to_cow / is_quoted / new against a recursive specification of the unquoted text',
+    'level_text': 'Partial claim - the unquoting half of C17, as an unbounded proof: for every remaining input and every iterator state, Unquote::to_cow returns exactly the text the character-by-character iterator yields (spec function unq: text up to the closing quote, escapes resolved, unterminated strings and text after the closing quote included), to_cow never slices off a character boundary or out of range (its slicing preconditions are proof obligations), and next() terminates, yields unq element by element and stays exhausted (fused). The link and attribute scanners (LinkFormatParser / LinkAttributeParser: trim, find, split_at, pointer-difference slicing) are NOT covered.',
+    'level_note': 'Assumed: Chars::as_str / str::find(char) / starts_with(char) / len and the slicings &s[a..], &s[..b] over an axiomatic byte-offset model (offsets strictly increase with the character index, start at 0, the ASCII quote occupies one byte; slicing is defined exactly at character boundaries), Cow construction, to_string() == collecting the iterator (Display impl). Chars::next / str::chars use the specification shipped with vstd.',
+    'trusted': [T_VERUS, 'unit unq: assumed contracts of Chars::as_str, str::find(char), str::starts_with(char), str::len, &s[a..] / &s[..b] (byte-offset axioms boff), Cow::from, ToString for Unquote (== collecting the iterator); vstd specification of Chars::next and str::chars; derived PartialEq of UnquoteState read as structural'],
+    'not_covered': ['LinkFormatParser::next and LinkAttributeParser::next (totality, substrings in order, nothing after the first error): out of reach - str scanning by pointer difference, trim/find/split_at', 'Unquote::into_raw_str, PartialEq, Display (std fmt)'],
+    'explanation': 'unit unq',
+}
+
 HOOK_COMMITS = ['7321ffc']
 
 NOT_APPLICABLE = [
     {'property_id': 'C16', 'reason': 'round trip runs through the two link-format scanners, which slice by pointer difference and use trim/find/split_at: Verus has no byte-level str model and Kani exhausts memory on 3-byte inputs (measured, DESIGN.md Appendix B); no contract within reach expresses parse(write(d)) == d'},
     {'property_id': 'C20', 'reason': 'retention/expiry is decided inside the external lru_time_cache crate from Instant::now(); no contract on coap-lite functions can express elapsed wall-clock time without assuming the property'},
 ]
-NOT_APPLICABLE.append({'property_id': 'C17', 'reason': 'out of reach of contract-based verification here: the two scanners slice by pointer difference and use trim/find/split_at, and Unquote::to_cow slices str by byte offsets - Verus has no byte-level str model (str is Seq<char>), and Kani/CBMC runs out of memory on Unquote::to_cow vs its iterator even for strings of <= 4 ASCII characters with UTF-8 validation bypassed (measured 415-513 s, then OOM; kani/src/unquote.rs). The to_cow defect found while reading (panic on the one-character input) is repaired and demonstrated natively (replay/tests), but no check is claimed'})
 _PENDING = 'check not built yet in this session (contract-based route planned in DESIGN.md section 4); not claimed until it passes on the reference tree and fails on seeded mutants'
 for _p in ['C01','C02','C04','C05','C06','C07','C08','C09','C10','C11','C12','C13','C14','C15','C17','C18','C19']:
     if _p not in CHECKS:
